@@ -9,6 +9,17 @@ NOTE = ("Trusted: Lean 4.33 kernel (axioms propext, Classical.choice, Quot.sound
         "differential correspondence streams named here (agreement on generated inputs, not a proof of the tie). ")
 
 CLAIMS = {
+ 'C06': dict(
+   text="Lean theorems, for EVERY instance list, every track count 1..65535, every instrument/program: end-to-end refinement write_refines (induction over "
+        "the op history with the invariant 'every track's clock + writer pending = reference time'): track i holds exactly the events of the piece's "
+        "reference timeline that the selector routes to it, at their reference ticks, in order; every_track_ends_at_total: each track's only end-of-track "
+        "is its last event and sits at the sum of all instance lengths (trailing rests included); merged_independent_of_tracks: for any two track counts the "
+        "merged (tick,event) lists are permutations of each other (bucket-permutation lemma); selector_in_range. Tie: 1,500 (20,000) random op histories "
+        "on the real midix.MIDIWriter with 1..32 tracks, compared track by track (delta, message bytes); 2,000 (30,000) documents through `crd write "
+        "--track N` with byte comparison.",
+   note="Tick arithmetic is on Nat (Go: uint32; totals are bounded below 2^28 by the property). The refinement is stated for Go's tick function goTicks "
+        "and proved for an arbitrary one.",
+   technique="Lean 4 proof: invariant by induction over histories + refinement to a track-count-free reference timeline + permutation lemma", ref="6 (C06)"),
  'C17': dict(
    text="Lean theorem diatonic_chords_playable_in_key, decided by kernel evaluation THROUGH THE COMPOSED MODEL (lexer, parser, classifier, syllable converter "
         "in key K, dictionary, Key.Apply in key K) for all 28 keys x 14 listed chords: each string lexes and parses as one chord written on the i-th scale "
